@@ -485,6 +485,36 @@ fn foreign_case<B: Backend>(c: &ForeignCase, acc: &mut Acc) -> R {
             });
         (tok, un)
     };
+    // the same token read through the registered-claims payload type when its message is a full
+    // claims object of a foreign issuer (all seven claims, unknown members anywhere)
+    if c.style % 3 == 0 {
+        let claims_msg = format!("{{\"role\":\"x\",\"iss\":{t},\"sub\":\"s\",\"aud\":\"a\",\"mid\":[1,2],\"exp\":\"2039-01-01T00:00:00Z\",\"nbf\":\"2020-01-01T00:00:00Z\",\"iat\":\"2021-01-01T00:00:00+00:00\",\"jti\":\"id\",\"data\":{n},\"last\":null}}", t = serde_json::to_string(&c.text).unwrap(), n = c.n);
+        let m2 = claims_msg.as_bytes().to_vec();
+        let r: Result<paseto_json::RegisteredClaims, String> = if c.public {
+            let sk_raw = secret_bytes(ver, &c.key);
+            let pk_raw = public_bytes(ver, &sk_raw);
+            let sk = secret_key::<B>(&c.key);
+            UnsealedToken::<V<B>, Public, Raw>::new(Raw(m2.clone()))
+                .with_footer(f.clone())
+                .seal(&sk, &i)
+                .map_err(|e| format!("seal: {e}"))
+                .and_then(|t| t.to_string().parse::<SealedToken<V<B>, Public, paseto_json::RegisteredClaims, Vec<u8>>>().map_err(|e| format!("parse: {e}")))
+                .and_then(|t| key_from_bytes::<V<B>, Public>(&pk_raw).map_err(|e| format!("{e}")).and_then(|k| t.unseal(&k, &i, &NoValidation::dangerous_no_validation()).map(|u| u.claims).map_err(|e| format!("{e}"))))
+        } else {
+            let k = local_key::<B>(&c.key);
+            UnsealedToken::<V<B>, Local, Raw>::new(Raw(m2.clone()))
+                .with_footer(f.clone())
+                .seal(&k, &i)
+                .map_err(|e| format!("seal: {e}"))
+                .and_then(|t| t.to_string().parse::<SealedToken<V<B>, Local, paseto_json::RegisteredClaims, Vec<u8>>>().map_err(|e| format!("parse: {e}")))
+                .and_then(|t| t.unseal(&k, &i, &NoValidation::dangerous_no_validation()).map(|u| u.claims).map_err(|e| format!("{e}")))
+        };
+        match r {
+            Ok(cl) => ensure!(cl.iss.as_deref() == Some(c.text.as_str()) && cl.jti.as_deref() == Some("id") && cl.exp.is_some() && cl.nbf.is_some() && cl.iat.is_some(), format!("C03/{name}/{purpose}/foreign-json/registered-claims-differ"), "registered claims read from a full foreign claims object differ"),
+            Err(e) => return Err(Fail::new(format!("C03/{name}/{purpose}/foreign-json/registered-claims-rejected"), format!("an authentic token whose message is a full claims object with unknown members ({claims_msg:.120}) is rejected when read as RegisteredClaims: {e}"))),
+        }
+        acc.class("foreign-json:full-claims-object-as-RegisteredClaims");
+    }
     match un {
         Ok((mm, ff, shown)) => {
             ensure!(mm == want_m && ff == want_f, format!("C03/{name}/{purpose}/foreign-json/claims-differ"), "typed claims / footer differ from the JSON values in the token");
